@@ -508,7 +508,8 @@ func makeIntArshaler(t reflect.Type) *arshaler {
 	}
 	fncs.unmarshal = func(dec *jsontext.Decoder, va addressableValue, uo *jsonopts.Struct) error {
 		xd := export.Decoder(dec)
-		stringify := xd.Tokens.Last.NeedObjectName() || uo.Flags.Get(jsonflags.StringifyNumbers|jsonflags.StringTag)
+		isName := xd.Tokens.Last.NeedObjectName()
+		stringify := isName || uo.Flags.Get(jsonflags.StringifyNumbers|jsonflags.StringTag)
 		if uo.Flags.Has(jsonflags.FormatTag) {
 			return newInvalidFormatError(dec, t)
 		}
@@ -534,6 +535,9 @@ func makeIntArshaler(t reflect.Type) *arshaler {
 				// according to the Go syntax and permitted a quoted null.
 				// See https://go.dev/issue/75619
 				n, err := strconv.ParseInt(string(val), 10, bits)
+				if err == nil && !isName && !startsLikeJSONNumber(val) {
+					err = &strconv.NumError{Err: strconv.ErrSyntax}
+				}
 				if err != nil {
 					if string(val) == "null" {
 						if !uo.Flags.Get(jsonflags.MergeWithLegacySemantics) {
@@ -607,7 +611,8 @@ func makeUintArshaler(t reflect.Type) *arshaler {
 	}
 	fncs.unmarshal = func(dec *jsontext.Decoder, va addressableValue, uo *jsonopts.Struct) error {
 		xd := export.Decoder(dec)
-		stringify := xd.Tokens.Last.NeedObjectName() || uo.Flags.Get(jsonflags.StringifyNumbers|jsonflags.StringTag)
+		isName := xd.Tokens.Last.NeedObjectName()
+		stringify := isName || uo.Flags.Get(jsonflags.StringifyNumbers|jsonflags.StringTag)
 		if uo.Flags.Has(jsonflags.FormatTag) {
 			return newInvalidFormatError(dec, t)
 		}
@@ -633,6 +638,9 @@ func makeUintArshaler(t reflect.Type) *arshaler {
 				// according to the Go syntax and permitted a quoted null.
 				// See https://go.dev/issue/75619
 				n, err := strconv.ParseUint(string(val), 10, bits)
+				if err == nil && !isName && !startsLikeJSONNumber(val) {
+					err = &strconv.NumError{Err: strconv.ErrSyntax}
+				}
 				if err != nil {
 					if string(val) == "null" {
 						if !uo.Flags.Get(jsonflags.MergeWithLegacySemantics) {
@@ -711,7 +719,8 @@ func makeFloatArshaler(t reflect.Type) *arshaler {
 	}
 	fncs.unmarshal = func(dec *jsontext.Decoder, va addressableValue, uo *jsonopts.Struct) error {
 		xd := export.Decoder(dec)
-		stringify := xd.Tokens.Last.NeedObjectName() || uo.Flags.Get(jsonflags.StringifyNumbers|jsonflags.StringTag)
+		isName := xd.Tokens.Last.NeedObjectName()
+		stringify := isName || uo.Flags.Get(jsonflags.StringifyNumbers|jsonflags.StringTag)
 		var allowNonFinite bool
 		if uo.Flags.Has(jsonflags.FormatTag) {
 			if uo.Format == "nonfinite" {
@@ -756,6 +765,9 @@ func makeFloatArshaler(t reflect.Type) *arshaler {
 				// according to the Go syntax and permitted a quoted null.
 				// See https://go.dev/issue/75619
 				n, err := strconv.ParseFloat(string(val), bits)
+				if err == nil && !isName && !startsLikeJSONNumber(val) {
+					err = &strconv.NumError{Err: strconv.ErrSyntax}
+				}
 				if err != nil {
 					if string(val) == "null" {
 						if !uo.Flags.Get(jsonflags.MergeWithLegacySemantics) {
@@ -786,6 +798,14 @@ func makeFloatArshaler(t reflect.Type) *arshaler {
 		return newUnmarshalErrorAfter(dec, t, nil)
 	}
 	return &fncs
+}
+
+// startsLikeJSONNumber reports whether b starts with '-' or a digit.
+// Historically, v1 only parsed a quoted number according to the Go syntax
+// if it started like a JSON number, so "+1", ".5", "Inf", and "NaN" were rejected
+// (while a JSON object name was always parsed according to the Go syntax).
+func startsLikeJSONNumber(b []byte) bool {
+	return len(b) > 0 && (b[0] == '-' || ('0' <= b[0] && b[0] <= '9'))
 }
 
 func makeMapArshaler(t reflect.Type) *arshaler {
